@@ -54,7 +54,9 @@ Inductive eop :=
 | ENoop (c : string)                                  (* a packet Process has no case for (CONNACK, SUBACK, PINGRESP, QoS 3 ...) *)
 | EBadConnect (n : nat) (c : string)                 (* a first packet that is not a decodable CONNECT *)
 | EPanic
-| EGossipRev (src dst : nat).                         (* the pending broadcasts of src reach dst in reverse order *)
+| EGossipRev (src dst : nat)                          (* the pending broadcasts of src reach dst in reverse order *)
+| EPeerNotice (observer dead : nat) (clk : Z)         (* NotifyGossipLeave up to its return: the session records are still there *)
+| EPeerReap (observer dead : nat) (clk : Z).          (* ... and its delayed DeletePeer of the session records, 3 s later *)
 
 (** * one node *)
 Record sess := Sess { ss_id : string; ss_cid : string; ss_mp : string; ss_lwt : option publish; ss_ka : Z;
@@ -446,6 +448,20 @@ Definition peer_leave (cl : cluster) (o dead : nat) (clk : Z) : cluster * list e
   let n3 := mutate n2 (sess_delete_peer (n_d n2) pid clk) in
   (setn (fst r) o n3, snd r).
 
+(* the same in two steps: what NotifyGossipLeave has done when it returns, and the removal of the
+   failed peer's session records that it leaves to a goroutine (three seconds later) *)
+Definition peer_notice (cl : cluster) (o dead : nat) (clk : Z) : cluster * list eobs :=
+  let cl0 := Cluster (cl_nodes cl) (cl_conns cl) (cl_bad cl) (dead :: cl_down cl) (cl_deliv cl) (cl_next cl) in
+  let n := getn cl0 o in
+  let pid := Z.of_nat (S dead) in
+  let n1 := mutate n (sub_delete_peer (n_d n) pid clk) in
+  let wills := flat_map (fun m => match m_lwt m with
+                                  | Some w => [LMsg (prefix_mp (m_mp m) (p_topic w)) (p_payload w) (p_qos w) (p_retain w) false]
+                                  | None => [] end) (sess_by_peer pid (n_d n1)) in
+  fold_left (fun acc w => let '(c, ob, _) := append_at (fst acc) o w in (c, (snd acc ++ ob)%list)) wills (setn cl0 o n1, []).
+Definition peer_reap (cl : cluster) (o dead : nat) (clk : Z) : cluster :=
+  let n := getn cl o in setn cl o (mutate n (sess_delete_peer (n_d n) (Z.of_nat (S dead)) clk)).
+
 Definition listed (cl : cluster) (i : nat) : eobs :=
   let n := getn cl i in Listed i (sess_all (n_d n)) (sub_all (n_d n)) (map fst (n_reg n)) (length (n_acks n)).
 
@@ -474,6 +490,8 @@ Definition step_raw (seen : seen_t) (cl : cluster) (o : eop) : cluster * list eo
     (Cluster (cl_nodes cl) (cl_conns cl ++ [Conn c n None true])%list (cl_bad cl) (cl_down cl) (cl_deliv cl) (cl_next cl), [Closed c])
   | EPanic => (cl, [])
   | EGossipRev a b => (gossip_with (@rev bevent) cl a b, [])
+  | EPeerNotice o d clk => peer_notice cl o d clk
+  | EPeerReap o d clk => (peer_reap cl o d clk, [])
   end.
 Definition step (seen : seen_t) (cl : cluster) (o : eop) : cluster * list eobs :=
   let r := step_raw seen cl o in
